@@ -378,31 +378,53 @@ func buildWorld(t *TopoSpec) *world {
 		}
 
 	case "ns-cycle", "ns-chain":
+		// zone g<i> is delegated, without glue, to the single name
+		// nsx.g<i+1>, which is published INSIDE zone g<i+1> and carries the
+		// addresses of the server that hosts g<i>: reaching g<i> needs a
+		// lookup in g<i+1>, which needs one in g<i+2>, ... The chain ends in
+		// a zone with ordinary glue; the cycle closes on g0 and has no way in.
 		n := t.Len
+		zones := make([]*zm.Zone, n)
+		servers := make([]*authsim.Server, n)
+		dep := make([]string, n) // dep[i]: the NS name zone g<i> is delegated to ("" = glue)
 		for i := 0; i < n; i++ {
 			apex := fmt.Sprintf("g%d.%s", i, tldName)
 			s := u.AddServer(fmt.Sprintf("g%d", i))
+			servers[i] = s
 			last := i == n-1
 			if last && t.Kind == "ns-chain" {
 				z := w.addZone(apex, s)
 				z.AddMarked("www."+apex, dns.TypeA, 300)
+				zones[i] = z
 				continue
 			}
 			next := (i + 1) % n
-			nsName := fmt.Sprintf("ns1.g%d.%s", next, tldName)
+			nsName := fmt.Sprintf("nsx.g%d.%s", next, tldName)
 			if n == 1 {
-				nsName = "ns1." + apex // in-bailiwick, but the parent gives no glue
+				nsName = "nsx." + apex // in-bailiwick, but the parent gives no glue
 			}
+			dep[i] = nsName
 			sp := w.zspec(apex)
 			sp.NSHosts = []string{nsName}
-			// AddZone publishes the addresses of this zone's own ns1 (what the
-			// previous zone of the chain depends on) inside the zone
 			z := u.AddZone(sp, s)
 			z.AddMarked("www."+apex, dns.TypeA, 300)
+			zones[i] = z
 			o := w.dopts()
 			o.NS = []zm.NSHost{{Name: nsName}}
 			o.NoGlue = true
 			u.Delegate(w.tld, z, o)
+		}
+		for i := 0; i < n; i++ {
+			if dep[i] == "" {
+				continue
+			}
+			holder := zones[(i+1)%n]
+			if holder.RRset(dep[i], dns.TypeA) != nil {
+				continue
+			}
+			for _, ip := range addrIPs(servers[i]) {
+				holder.AddAddr(dep[i], ip, 300)
+			}
 		}
 
 	case "fanout", "fanout2":
